@@ -211,6 +211,12 @@ impl State for FileState {
                 .map_err(|_| IggyError::InvalidNumberEncoding)?
                 as usize;
             total_size += 4;
+            // A length beyond what is left of the file can only come from a damaged entry: refuse it
+            // instead of allocating (and zeroing) a buffer of up to 4 GiB first.
+            if context_length as u64 > file_size.saturating_sub(total_size) {
+                error!("State file is corrupted, context length: {context_length} exceeds the file size");
+                return Err(IggyError::CannotReadFile);
+            }
             let mut context = BytesMut::with_capacity(context_length);
             context.put_bytes(0, context_length);
             reader
@@ -234,6 +240,10 @@ impl State for FileState {
                 .map_err(|_| IggyError::InvalidNumberEncoding)?
                 as usize;
             total_size += 4;
+            if command_length as u64 > file_size.saturating_sub(total_size) {
+                error!("State file is corrupted, command length: {command_length} exceeds the file size");
+                return Err(IggyError::CannotReadFile);
+            }
             let mut command = BytesMut::with_capacity(command_length);
             command.put_bytes(0, command_length);
             reader
